@@ -4,6 +4,7 @@ import ScsiVerif.Std.T10
 import ScsiVerif.Model.Xfer
 import ScsiVerif.Model.Guards
 import ScsiVerif.Model.Facade
+import ScsiVerif.Model.Attach
 import ScsiVerif.Gen.Commands
 import ScsiVerif.Gen.Opcodes
 import ScsiVerif.Gen.Tables
@@ -128,6 +129,14 @@ def cmdOp (toks : List String) : Option String :=
     let ev : Facade.Ev → String := fun | .construct => "c" | .execute => "e" | .unmarshall => "u" | .ret => "r"
     pure ("ok execs=" ++ toString (Facade.executes r) ++ " trace=" ++ ",".intercalate (r.trace.map ev) ++ " " ++
       (match r.outcome with | .returned => "returned" | .raised _ => "raised"))
+  -- attachrun <ndevices> <k:b,k:b,…> : attach history over fresh devices; reply: opcodes/devicetype/inquiries per device
+  | ["attachrun", n, hist] => do
+    let n ← n.toNat?
+    let evs ← (splitOn hist ",").mapM (fun e => match e.splitOn ":" with
+      | [k, b] => do let k ← k.toNat?; let b ← b.toNat?; pure (k, b)
+      | _ => none)
+    let w := Attach.run (List.replicate n {}) evs
+    pure ("ok " ++ ";".intercalate (w.map (fun d => d.opcodes ++ "/" ++ (match d.devicetype with | some t => toString t | none => "none") ++ "/" ++ toString d.inquiries)))
   | ["t10op", name] => pure (match Std.lookup Std.t10Opcodes name with | some v => "ok " ++ toString v | none => "none")
   | ["t10sa", name] => pure (match Std.lookup Std.t10ServiceActions name with | some v => "ok " ++ toString v | none => "none")
   | ["samstatus", name] => pure (match Std.lookup Std.samStatus name with | some v => "ok " ++ toString v | none => "none")
